@@ -629,7 +629,11 @@ theorem flag_runFrame (p : Prog) (hh : Hist) {s : St} {f : Frame} {rest : List F
       · exact flag_reveal_leads rfl hP hl hrest
     · split
       · rename_i e expanded work _
-        exact pushOne _ work (by simp [Fl, St.push]) (by simp [St.push]) (by simp [St.push, despawn1_stack])
+        split
+        · exact pushOne _ work (by simp [Fl, St.push]) (by simp [St.push]) (by simp [St.push, despawn1_stack])
+        · exact flag_push (g := .flush) (gs := [.despawnWork ((e, true) :: work)]) (rest := rest) rfl
+            (pending_same (by simp [Fl, St.push]) (by simp [St.push]) hP)
+            (by intro x hx; simp at hx; subst hx; exact ⟨trivial, rfl⟩) hrest
       · split
         · exact pushOne _ _ (by simp [Fl, St.push]) (by simp [St.push]) rfl
         · exact pushOne _ _ (by simp [Fl, St.push]) (by simp [St.push]) rfl
